@@ -42,6 +42,7 @@ func mathCall(ff *core.FuncFacts, v ssa.Value, name string) ([]ssa.Value, *ssa.C
 }
 
 func checkC14(P *core.Program, R *core.Report) {
+	defer checkConfigApplied(P, R)
 	R.Explanation = "Structural sentences of the vesting statement, decided on the five vesting handlers: VestedSoFar computes Total·t/NumBlocks with t clamped to NumBlocks (the φ's NumBlocks edge is taken exactly under elapsed > NumBlocks); " +
 		"ClaimVesting builds the payout coin and advances ClaimedAmount to the same VestedSoFar value only under the must-hold fact (vested − claimed) > 0 (sign obligation; F-14 repaired), pays the claims to the sender; " +
 		"CancelVest cancels per entry Min(remaining, Total − Claimed) of the same entry, lowers Total and the remaining counter by that same amount, starts from msg.Amount and credits AddClaimed(Eden, msg.Amount) only under remaining == 0; " +
@@ -97,24 +98,10 @@ func checkVestedSoFar(P *core.Program, R *core.Report) {
 	R.Add("C14-schedule", key, "Total·min(elapsed,NumBlocks)/NumBlocks", P.Pos(fn.Pos()), bad == "" && n == 1, "VestedSoFar must follow the clamped linear schedule. "+bad)
 }
 
+// edgeAtoms: what the branch taken from pred to succ adds to the facts at the end of pred
+// (must-hold facts only; atoms collected along one particular path are not facts).
 func edgeAtoms(ff *core.FuncFacts, pred, succ *ssa.BasicBlock) []*core.Atom {
-	// facts at the first instruction of succ restricted to this edge are not available
-	// directly; use a path query through PathsTo on the successor's first instruction.
-	var out []*core.Atom
-	if len(succ.Instrs) == 0 {
-		return nil
-	}
-	paths, ok := ff.PathsTo(succ.Instrs[len(succ.Instrs)-1])
-	if !ok {
-		return nil
-	}
-	for _, p := range paths {
-		if len(p.Blocks) >= 2 && p.Blocks[len(p.Blocks)-2] == pred {
-			out = append(out, p.Atoms...)
-			break
-		}
-	}
-	return out
+	return ff.EdgeFacts(pred, succ)
 }
 
 // isElapsed: BlockHeight() − StartBlock.
@@ -619,5 +606,118 @@ func checkEntryKept(P *core.Program, R *core.Report) {
 		}
 		R.Add("C14-entry-kept", key, "entry dropped only when fully claimed", P.Pos(fn.Pos()), bad == "" && nLatch > 0,
 			"rebuilding the vesting list keeps every entry that still has something to release. "+bad)
+	}
+}
+
+// checkConfigApplied (C14-config-applied): "the configured factor" and the configured
+// schedule length are what governance last set with MsgUpdateVestingInfo.  Every value the
+// handler takes from the message must be written INTO the params record it then stores
+// (directly, or into a literal that is appended to it) — not into some other copy, such
+// as the pointer GetVestingInfo returns (a pointer to a copy of its own GetParams), which
+// makes the update succeed and change nothing.
+func checkConfigApplied(P *core.Program, R *core.Report) {
+	const rule = "C14-config-applied"
+	const key = "x/commitment/keeper.msgServer.UpdateVestingInfo"
+	fn := P.Fn(key)
+	if fn == nil {
+		R.Add(rule, key, "function", "-", false, "unresolved anchor")
+		return
+	}
+	ff := P.Facts(fn)
+	var msg *ssa.Parameter
+	for _, p := range fn.Params {
+		if _, _, ok := isProtoMsg(p.Type()); ok {
+			msg = p
+		}
+	}
+	var rec *ssa.Alloc
+	for _, c := range core.Calls(fn) {
+		if core.CalleeName(c.Common()) == "SetParams" && len(c.Common().Args) >= 3 {
+			rec = recordAlloc(ff, c.Common().Args[2])
+		}
+	}
+	if msg == nil || rec == nil {
+		R.Add(rule, key, "message / stored record", P.Pos(fn.Pos()), false, "no message parameter or no SetParams(record) found (anchor changed)")
+		return
+	}
+	root := func(addr ssa.Value) ssa.Value {
+		for d := 0; d < 8; d++ {
+			switch x := addr.(type) {
+			case *ssa.FieldAddr:
+				addr = x.X
+			case *ssa.IndexAddr:
+				addr = x.X
+			case *ssa.UnOp:
+				if x.Op != token.MUL {
+					return addr
+				}
+				addr = x.X
+			default:
+				return addr
+			}
+		}
+		return addr
+	}
+	// does the content of alloc b flow into a store rooted at rec (append of a literal)?
+	var flows func(v ssa.Value, depth int) bool
+	flows = func(v ssa.Value, depth int) bool {
+		if depth > 8 || v.Referrers() == nil {
+			return false
+		}
+		for _, r := range *v.Referrers() {
+			switch x := r.(type) {
+			case *ssa.Store:
+				if x.Val == v || x.Addr == v {
+					rt := root(x.Addr)
+					if rt == ssa.Value(rec) {
+						return true
+					}
+					if al, ok := rt.(*ssa.Alloc); ok && al != v && x.Val == v && flows(al, depth+1) {
+						return true
+					}
+				}
+			case *ssa.UnOp, *ssa.Slice, *ssa.Phi, *ssa.ChangeType, *ssa.MakeInterface:
+				if flows(x.(ssa.Value), depth+1) {
+					return true
+				}
+			case *ssa.Call:
+				if core.CalleeName(x.Common()) == "append" && flows(x, depth+1) {
+					return true
+				}
+			}
+		}
+		return false
+	}
+	n := 0
+	for _, b := range fn.Blocks {
+		for _, in := range b.Instrs {
+			st, ok := in.(*ssa.Store)
+			if !ok {
+				continue
+			}
+			fromMsg := false
+			for _, o := range ff.Origins(st.Val) {
+				if o.Kind == "param" && o.Name == msg.Name() && o.Path != "" {
+					fromMsg = true
+				}
+			}
+			if !fromMsg {
+				continue
+			}
+			rt := root(st.Addr)
+			if al, isAl := rt.(*ssa.Alloc); isAl && al.Comment == "varargs" {
+				continue // argument packing (error formatting), not a record
+			}
+			n++
+			good := rt == ssa.Value(rec)
+			if al, isAl := rt.(*ssa.Alloc); isAl && !good {
+				good = flows(al, 0)
+			}
+			R.Add(rule, key, "message value stored", P.Pos(P.InstrPos(st)), good,
+				"a value taken from the message is written into the params record that is stored (or a literal appended to it), not into another copy")
+		}
+	}
+	if n == 0 {
+		R.Add(rule, key, "message values", P.Pos(fn.Pos()), false, "no value of the message is stored anywhere (anchor changed)")
 	}
 }
